@@ -29,7 +29,7 @@ use std::time::Duration;
 pub static INFO: PropInfo = PropInfo {
     id: "C05",
     level: "exploration",
-    rule: "one evaluation = one run against a fresh secure server (plus a second server instance with the same key, protocol id and address for stale challenges): honest NetcodeClient handshakes and hand-driven handshakes, then the scripted attacker repertoire (tokens presented at server times floor(t) = expire-1 / expire / expire+1; every single-field corruption of the request: version, protocol id, expiry, nonce, sealed token head / middle / MAC, zeroed token, plus sampled single-bit flips; tokens sealed under a foreign key, for a foreign protocol id (public field and / or sealed AAD), listing only foreign hosts; a token replayed from a second address before and after the first address completed; responses from an unknown address and from an address half-open for another token; challenges cross-used between sessions the attacker owns, including two tokens with the same client id and different user data; challenges of the other server instance; corrupted challenges; observed honest datagrams replayed from other addresses; a response delivered after the server clock passed the token's expiry in one step or in sub-second steps of 1..999 ms), then 40..160 seeded random request / response / time-advance / disconnect operations over all tokens, addresses and collected challenges. Every ClientConnected is judged against the token ledger (who was minted what, which request came from where at which server time) and the challenge ledger (which blob this server issued in answer to a request of which client id; blobs are recovered by opening replies with the token's server-to-client key). One script presents a 2 s token while it is valid (sometimes completing and ending the session, sometimes repeating the request), lets it expire and then sends, from the same address, the same request with the header expiry rewritten into the future (alone, with the nonce changed, with sealed bytes changed while the trailing MAC stays) and the unchanged one, each followed by a response. Non-trivial = at least one honest connect and at least 10 refused attack attempts in the run; distinct = distinct fingerprints of the (operation, result kind) history.",
+    rule: "one evaluation = one run against a fresh secure server (plus a second server instance with the same key, protocol id and address for stale challenges): honest NetcodeClient handshakes and hand-driven handshakes, then the scripted attacker repertoire (tokens presented at server times floor(t) = expire-1 / expire / expire+1; every single-field corruption of the request: version, protocol id, expiry, nonce, sealed token head / middle / MAC, zeroed token, plus sampled single-bit flips; tokens sealed under a foreign key, for a foreign protocol id (public field and / or sealed AAD), listing only foreign hosts; a token replayed from a second address before and after the first address completed; responses from an unknown address and from an address half-open for another token; challenges cross-used between sessions the attacker owns, including two tokens with the same client id and different user data; challenges of the other server instance; corrupted challenges; observed honest datagrams replayed from other addresses; a response delivered after the server clock passed the token's expiry in one step or in sub-second steps of 1..999 ms), then 40..160 seeded random request / response / time-advance / disconnect operations over all tokens, addresses and collected challenges. Every ClientConnected is judged against the token ledger (who was minted what, which request came from where at which server time) and the challenge ledger (which blob this server issued in answer to a request of which client id; blobs are recovered by opening replies with the token's server-to-client key). One run in 12 has a FLOOD script: a token completes a handshake from X and the session ends, more than 2048 well-formed requests with random bytes in place of the sealed token arrive from other addresses, then the recorded request and response are replayed from Y (the record 'used from X' must have survived). One script presents a 2 s token while it is valid (sometimes completing and ending the session, sometimes repeating the request), lets it expire and then sends, from the same address, the same request with the header expiry rewritten into the future (alone, with the nonce changed, with sealed bytes changed while the trailing MAC stays) and the unchanged one, each followed by a response. Non-trivial = at least one honest connect and at least 10 refused attack attempts in the run; distinct = distinct fingerprints of the (operation, result kind) history.",
     assumptions: &[
         "AEAD unforgeability assumed; the attacker only uses keys of tokens it was legitimately issued and datagrams it observed",
         "fewer than 2048 distinct tokens per server instance (token-entry table never evicts)",
@@ -445,6 +445,9 @@ pub fn one_run(ctx: &Ctx, out: &mut Outcome, run_seed: u64) {
 
     // the scripted repertoire in a seeded order
     let mut scripts: Vec<u32> = (0..14).collect();
+    if r.chance(1, 12) {
+        scripts.push(14);
+    }
     r.shuffle(&mut scripts);
     scripts.insert(0, 100); // an honest connect first: the attacker observes it
     let mut observed: Option<(usize, SocketAddr, Vec<Vec<u8>>)> = None;
@@ -771,6 +774,50 @@ pub fn one_run(ctx: &Ctx, out: &mut Outcome, run_seed: u64) {
                     }
                     refused(&mut w, out, "forged_expiry_after_valid_sighting", conn);
                 }
+            }
+            14 => {
+                // the record "token T was used from X" survives any number of requests that carry no valid token: T
+                // completes a handshake from X, the session ends, more than 2048 well-formed but unauthenticated
+                // requests arrive (random bytes in place of the sealed token, distinct trailing MACs), then T's recorded
+                // request and response are replayed from Y
+                let id = w.fresh_id();
+                let t = w.mint(&mut r, id, exp + 600, None, None, None, None);
+                let x = w.fresh_addr(&mut r);
+                let Some(b) = request(&mut w, ctx, out, 0, t, x, "flood-victim-request") else { continue };
+                let connected = respond(&mut w, ctx, out, 0, x, t, &b, "flood-victim-response");
+                if connected {
+                    disconnect(&mut w, 0, id);
+                }
+                w.srv[0].update(Duration::from_millis(1000 + r.below(2000)));
+                w.srv[1].update(Duration::from_millis(1000));
+                let n = 2048 + r.urange(1, 150);
+                let mut answered = 0;
+                w.hist.push(format!("{} requests with random bytes in place of the sealed token follow (distinct addresses)", n));
+                for j in 0..n {
+                    let mut data = Box::new([0u8; 1024]);
+                    r.fill(&mut data[..]);
+                    let mut xnonce = [0u8; 24];
+                    r.fill(&mut xnonce);
+                    let d = OPacket::Request { version_info: crate::nsim::VERSION_INFO, protocol_id: w.protocol, expire_timestamp: w.now_s() + 600, xnonce, data }
+                        .encode(w.protocol, None)
+                        .expect("request encode");
+                    let from = addr4(70 + (j / 250) as u8, (j % 250) as u8, 47_000);
+                    // straight to the server: 2000 more history lines would only bury the witness
+                    if w.srv[0].process(from, &d).outgoing().is_some() {
+                        answered += 1;
+                    }
+                }
+                out.count("unauthenticated_flood_scripts");
+                if answered > 0 {
+                    out.count("unauthenticated_flood_requests_answered");
+                }
+                let y = w.fresh_addr(&mut r);
+                let again = request(&mut w, ctx, out, 0, t, y, "flood-victim-request-replayed-from-other-address");
+                let mut conn = false;
+                if let Some(b2) = again.clone().or(Some(b.clone())) {
+                    conn = respond(&mut w, ctx, out, 0, y, t, &b2, "flood-victim-response-replayed-from-other-address");
+                }
+                refused(&mut w, out, "replay_from_other_address_after_unauthenticated_flood", conn || again.is_some());
             }
             11 => {
                 // datagrams of an honest client observed on the wire, replayed from another address
